@@ -1,4 +1,5 @@
-/- PowerShell: what `DigestPowershell` finds in front of a begin-marker line, whatever follows that line -/
+/- PowerShell: what `DigestPowershell` finds in front of a begin-marker line, whatever follows that line; and (fix F-ps-eol)
+   what it cuts off there: the marker line's own CRLF or nothing, otherwise the script is refused -/
 import Relic.Proofs.PSFrame
 set_option linter.unusedSimpArgs false
 set_option linter.unusedVariables false
@@ -17,7 +18,7 @@ theorem DigestPS_before_block8 (f : Bytes) (style : Nat) (d : Digest) (st en res
   unfold DigestPS digestWith at e
   rw [hs] at e
   simp only [hu, Bool.false_eq_true, if_false] at e
-  cases hl : digestLoop true (firstLine st en false) false 2 f.length (lines8 [] f) [] [] 0 0 with
+  cases hl : digestLoop true true (firstLine st en false) false 2 f.length (lines8 [] f) [] [] 0 0 with
   | err _ => simp [hl] at e
   | panic _ => simp [hl] at e
   | diverge => simp [hl] at e
@@ -57,7 +58,7 @@ theorem DigestPS_before_block8 (f : Bytes) (style : Nat) (d : Digest) (st en res
       simp [crlf, List.append_assoc]
     obtain ⟨S', hrun⟩ := digestLoop_frame (firstLine st en false) crlf false (text ++ tf).length
       (text ++ (crlf ++ (firstLine st en false ++ rest))).length (by decide) (pend8 [] text) x restf (lines8 [] rest) ph1
-      ((pend8 [] text ++ [13]).length + 1) (([] ++ (st ++ psBegin ++ en ++ [13])).length + 1) hx nf
+      ((pend8 [] text ++ [13]).length + 1) (([] ++ (st ++ psBegin ++ en ++ [13])).length + 1) hx nf (firstLine_sfx8 st en)
       (comp8 [] text) [] [] 0 0 Hh T S hg rfl hl hT
     have hu' : isUtf16 (text ++ (crlf ++ (firstLine st en false ++ rest))) = false := by
       rw [isUtf16_eq] at hu ⊢
@@ -89,7 +90,7 @@ theorem DigestPS_before_block16 (f : Bytes) (style : Nat) (d : Digest) (st en re
   unfold DigestPS digestWith at e
   rw [hs] at e
   simp only [hu, if_true] at e
-  cases hl : digestLoop true (firstLine st en true) true 4 f.length (lines16 [] f) [] [] 0 0 with
+  cases hl : digestLoop true true (firstLine st en true) true 4 f.length (lines16 [] f) [] [] 0 0 with
   | err _ => simp [hl] at e
   | panic _ => simp [hl] at e
   | diverge => simp [hl] at e
@@ -132,7 +133,7 @@ theorem DigestPS_before_block16 (f : Bytes) (style : Nat) (d : Digest) (st en re
     obtain ⟨S', hrun⟩ := digestLoop_frame (firstLine st en true) (widen crlf) true (text ++ tf).length
       (text ++ (widen crlf ++ (firstLine st en true ++ rest))).length (by decide) (pend16 [] text) x restf (lines16 [] rest) ph1
       ((pend16 [] text ++ widen [13]).length + 2) (([] ++ widen (st ++ psBegin ++ en ++ [13])).length + 2) hx nf
-      (comp16 [] text) [] [] 0 0 Hh T S hg rfl hl hT
+      (firstLine_sfx16 st en) (comp16 [] text) [] [] 0 0 Hh T S hg rfl hl hT
     have hu' : isUtf16 (text ++ (widen crlf ++ (firstLine st en true ++ rest))) = true := by
       rw [isUtf16_eq] at hu ⊢
       have hu0 := of_decide_eq_true hu
@@ -149,5 +150,542 @@ theorem DigestPS_before_block16 (f : Bytes) (style : Nat) (d : Digest) (st en re
     have : (widen crlf).length = 4 := rfl
     rw [this] at hrun
     rw [hrun]
+
+/-! ### fix F-ps-eol: what is cut off in front of a begin-marker line -/
+
+/-- no line of the list is the begin marker -/
+def NoMarker (first : Bytes) (xs : List Item) : Prop := ∀ l ph, Item.line l ph ∈ xs → l ≠ first
+
+theorem joinItems_append (a b : List Item) : joinItems (a ++ b) = joinItems a ++ joinItems b := by
+  simp [joinItems]
+
+/-- the text size reported is never less than what was collected so far minus one end-of-line -/
+theorem digestLoop_ts_ge (first : Bytes) (u16 : Bool) (k flen : Nat) (items : List Item) (saved h : Bytes) (ts pos : Nat)
+    (H : Bytes) (T S : Nat) (e : digestLoop true true first u16 k flen items saved h ts pos = .ok (H, T, S)) :
+    ts + saved.length ≤ T + k := by
+  induction items generalizing saved h ts pos with
+  | nil =>
+    simp only [digestLoop] at e
+    injection e with e; injection e with e1 e2; injection e2 with e2 e3
+    omega
+  | cons it rest ih =>
+    cases it with
+    | bad => simp [digestLoop] at e
+    | line l phys =>
+      simp only [digestLoop] at e
+      split at e
+      · split at e
+        · simp at e
+        · split at e
+          · simp at e
+          · injection e with e; injection e with e1 e2; injection e2 with e2 e3
+            simp only [List.length_take] at e2
+            omega
+      · have := ih _ _ _ _ e
+        omega
+
+/-- a run that reports no signature block met no begin marker -/
+theorem digestLoop_unsigned (first : Bytes) (u16 : Bool) (k flen : Nat) (hk : 0 < k) (items : List Item) (saved h : Bytes)
+    (ts pos : Nat) (H : Bytes) (T : Nat) (e : digestLoop true true first u16 k flen items saved h ts pos = .ok (H, T, 0)) :
+    NoMarker first items := by
+  induction items generalizing saved h ts pos with
+  | nil => intro l ph hm; cases hm
+  | cons it rest ih =>
+    cases it with
+    | bad => simp [digestLoop] at e
+    | line b phys =>
+      simp only [digestLoop] at e
+      by_cases hb : b = first
+      · rw [if_pos hb] at e
+        split at e
+        · simp at e
+        · split at e
+          · simp at e
+          · injection e with e; injection e with e1 e2; injection e2 with e2 e3
+            omega
+      · rw [if_neg hb] at e
+        intro l ph hm
+        rcases List.mem_cons.mp hm with h1 | h1
+        · injection h1 with h1 _; rw [h1]; exact hb
+        · exact ih _ _ _ _ e l ph h1
+
+/-- lines that are not the begin marker are passed over: the last of them becomes `saved` -/
+theorem digestLoop_skip (first : Bytes) (u16 : Bool) (k flen : Nat) (s : Bytes) (ph : Nat) (ys : List Item) (hs : s ≠ first) :
+    ∀ (xs : List Item) (saved h : Bytes) (ts pos : Nat), Good xs → NoMarker first xs →
+      ∃ h', digestLoop true true first u16 k flen (xs ++ (.line s ph :: ys)) saved h ts pos =
+        digestLoop true true first u16 k flen ys s h' (ts + saved.length + (joinItems xs).length)
+          (pos + (joinItems xs).length + ph) := by
+  intro xs
+  induction xs with
+  | nil =>
+    intro saved h ts pos _ _
+    exact ⟨h ++ conv u16 saved, by simp [digestLoop, hs, joinItems]⟩
+  | cons it xs ih =>
+    intro saved h ts pos hg nm
+    obtain ⟨b, hb⟩ := hg it (by simp)
+    subst hb
+    have hbf : b ≠ first := nm b b.length (by simp)
+    obtain ⟨h', e⟩ := ih b (h ++ conv u16 saved) (ts + saved.length) (pos + b.length) (fun y hy => hg y (by simp [hy]))
+      (fun l ph hm => nm l ph (by simp [hm]))
+    refine ⟨h', ?_⟩
+    simp only [List.cons_append, digestLoop, if_neg hbf]
+    rw [e]
+    have e1 : ts + saved.length + b.length + (joinItems xs).length =
+        ts + saved.length + (joinItems (Item.line b b.length :: xs)).length := by
+      simp [joinItems, itemBytes]; omega
+    have e2 : pos + b.length + (joinItems xs).length + ph = pos + (joinItems (Item.line b b.length :: xs)).length + ph := by
+      simp [joinItems, itemBytes]; omega
+    rw [e1, e2]
+
+/-- **the marker line is reached**: the run succeeds only if the line in front of it ends with the last `k` bytes of the
+    marker line (its CRLF), and then exactly those `k` bytes are cut off -/
+theorem digestLoop_at_marker (first : Bytes) (u16 : Bool) (k flen : Nat) (hk : 0 < k) (xs : List Item) (ph : Nat)
+    (more : List Item) (hg : Good xs) (nm : NoMarker first xs) (H : Bytes) (T S : Nat)
+    (e : digestLoop true true first u16 k flen (xs ++ (.line first ph :: more)) [] [] 0 0 = .ok (H, T, S)) :
+    T + k = (joinItems xs).length ∧ (joinItems xs).drop T = first.drop (first.length - k) := by
+  rcases List.eq_nil_or_concat xs with rfl | ⟨xs', it, rfl⟩
+  · simp only [List.nil_append, digestLoop, if_true, List.length_nil] at e
+    rw [if_pos hk] at e
+    simp at e
+  · rw [List.concat_eq_append] at e hg nm ⊢
+    obtain ⟨s, hit⟩ := hg it (by simp)
+    subst hit
+    have hsf : s ≠ first := nm s s.length (by simp)
+    rw [List.append_assoc, List.singleton_append] at e
+    obtain ⟨h', e'⟩ := digestLoop_skip first u16 k flen s s.length (.line first ph :: more) hsf xs' [] [] 0 0
+      (fun y hy => hg y (by simp [hy])) (fun l ph hm => nm l ph (by simp [hm]))
+    rw [e'] at e
+    simp only [digestLoop, if_true] at e
+    split at e
+    · simp at e
+    · rename_i hlen
+      split at e
+      · simp at e
+      · rename_i hck
+        injection e with e; injection e with e1 e2; injection e2 with e2 e3
+        simp only [List.length_take, List.length_nil, Nat.zero_add] at e2
+        have hsfx : s.drop (s.length - k) = first.drop (first.length - k) := by
+          by_cases hc : s.drop (s.length - k) = first.drop (first.length - k)
+          · exact hc
+          · exact absurd ⟨trivial, hc⟩ hck
+        have hT : T = (joinItems xs').length + (s.length - k) := by omega
+        rw [joinItems_append]
+        simp only [joinItems, List.flatMap_cons, List.flatMap_nil, itemBytes, List.append_nil, List.length_append] at hT ⊢
+        refine ⟨by omega, ?_⟩
+        rw [hT, List.drop_append, List.drop_eq_nil_of_le (by omega), List.nil_append]
+        rw [show (List.flatMap itemBytes xs').length + (s.length - k) - (List.flatMap itemBytes xs').length = s.length - k by omega]
+        exact hsfx
+
+/-- **a line that is not the marker is passed**: the text reported reaches at least to its end minus one end-of-line -/
+theorem digestLoop_past (first : Bytes) (u16 : Bool) (k flen : Nat) (xs : List Item) (l : Bytes) (ph : Nat)
+    (more : List Item) (hg : Good xs) (nm : NoMarker first xs) (hl : l ≠ first) (H : Bytes) (T S : Nat)
+    (e : digestLoop true true first u16 k flen (xs ++ (.line l ph :: more)) [] [] 0 0 = .ok (H, T, S)) :
+    (joinItems xs).length + l.length ≤ T + k := by
+  obtain ⟨h', e'⟩ := digestLoop_skip first u16 k flen l ph more hl xs [] [] 0 0 hg nm
+  rw [e'] at e
+  have := digestLoop_ts_ge _ _ _ _ _ _ _ _ _ _ _ _ e
+  simp only [List.length_nil] at this
+  omega
+
+/-- **refusal**: the marker line follows a line that does not end with the marker line's own CRLF -/
+theorem digestLoop_refuses (first : Bytes) (u16 : Bool) (k flen : Nat) (xs : List Item) (s : Bytes) (ph ph' : Nat)
+    (more : List Item) (hg : Good xs) (nm : NoMarker first xs) (hs : s ≠ first)
+    (hbad : ¬ (k ≤ s.length ∧ s.drop (s.length - k) = first.drop (first.length - k))) :
+    digestLoop true true first u16 k flen (xs ++ (.line s ph :: .line first ph' :: more)) [] [] 0 0 = .err "badsig" := by
+  obtain ⟨h', e'⟩ := digestLoop_skip first u16 k flen s ph (.line first ph' :: more) hs xs [] [] 0 0 hg nm
+  rw [e']
+  simp only [digestLoop, if_true]
+  by_cases hlen : s.length < k
+  · rw [if_pos hlen]
+  · rw [if_neg hlen, if_pos ⟨trivial, fun hc => hbad ⟨by omega, hc⟩⟩]
+
+
+/-! ### facts about the marker line -/
+
+theorem style_head (style : Nat) (st en : Bytes) (hs : styleOf style = some (st, en)) :
+    ∃ c tl, st = c :: tl ∧ c ≠ 0xff ∧ c ≠ 0xfe ∧ c ≠ 0 := by
+  unfold styleOf at hs
+  split at hs
+  · injection hs with hs; injection hs with h1 h2; subst h1; exact ⟨35, [32], by decide, by decide, by decide, by decide⟩
+  · injection hs with hs; injection hs with h1 h2; subst h1; exact ⟨60, [33, 45, 45, 32], by decide, by decide, by decide, by decide⟩
+  · injection hs with hs; injection hs with h1 h2; subst h1; exact ⟨47, [42, 32], by decide, by decide, by decide, by decide⟩
+  · cases hs
+
+theorem widen_length (l : Bytes) : (widen l).length = 2 * l.length := by
+  induction l with
+  | nil => rfl
+  | cons a t ih => simp only [widen, List.flatMap_cons, List.length_append, List.length_cons, List.length_nil] at ih ⊢; omega
+
+theorem firstLine_len8 (st en : Bytes) : 2 ≤ (firstLine st en false).length := by
+  simp only [firstLine, Bool.false_eq_true, if_false, List.length_append, crlf, List.length_cons, List.length_nil]; omega
+
+theorem firstLine_len16 (st en : Bytes) : 4 ≤ (firstLine st en true).length := by
+  simp only [firstLine, if_true, widen_length, List.length_append, crlf, List.length_cons, List.length_nil]; omega
+
+/-- appending a marker line (in the encoding of `T`) does not change the encoding detected -/
+theorem isUtf16_append_marker (style : Nat) (st en : Bytes) (hs : styleOf style = some (st, en)) (T rest : Bytes) :
+    isUtf16 (T ++ (firstLine st en (isUtf16 T) ++ rest)) = isUtf16 T := by
+  obtain ⟨c, tl, hst, c1, c2, _⟩ := style_head style st en hs
+  have hf : firstLine st en false = c :: (tl ++ psBegin ++ en ++ crlf) := by simp [firstLine, hst]
+  match T with
+  | a :: b :: r => rw [isUtf16_eq, isUtf16_eq]; simp
+  | [a] =>
+    have h0 : isUtf16 [a] = false := by simp [isUtf16]
+    rw [h0, hf, isUtf16_eq]
+    simp [c2]
+  | [] =>
+    have h0 : isUtf16 ([] : Bytes) = false := by simp [isUtf16]
+    rw [h0, hf, isUtf16_eq]
+    cases h : tl ++ psBegin ++ en ++ crlf ++ rest with
+    | nil => simp at h; simp [crlf] at h
+    | cons y ys =>
+      have : ([] : Bytes) ++ (c :: (tl ++ psBegin ++ en ++ crlf) ++ rest) = c :: y :: ys := by simp [← h]
+      rw [this]; simp [c1]
+
+/-! ### from `DigestPS` to the loop and back -/
+
+def itemsOf (f : Bytes) : List Item := if isUtf16 f then lines16 [] f else lines8 [] f
+def eolLen (u16 : Bool) : Nat := if u16 then 4 else 2
+
+theorem DigestPS_loop (f : Bytes) (style : Nat) (st en : Bytes) (d : Digest) (hs : styleOf style = some (st, en))
+    (e : DigestPS f style = .ok d) :
+    digestLoop true true (firstLine st en (isUtf16 f)) (isUtf16 f) (eolLen (isUtf16 f)) f.length (itemsOf f) [] [] 0 0 =
+      .ok (d.hashed, d.textSize, d.sigSize) := by
+  unfold DigestPS digestWith at e
+  rw [hs] at e
+  simp only at e
+  unfold itemsOf eolLen
+  split at e
+  · rename_i h ts ss hl
+    injection e with e; subst e
+    exact hl
+  · cases e
+  · cases e
+  · cases e
+
+theorem DigestPS_of_loop_err (f : Bytes) (style : Nat) (st en : Bytes) (x : String) (hs : styleOf style = some (st, en))
+    (e : digestLoop true true (firstLine st en (isUtf16 f)) (isUtf16 f) (eolLen (isUtf16 f)) f.length (itemsOf f) [] [] 0 0 = .err x) :
+    DigestPS f style = .err x := by
+  unfold DigestPS digestWith
+  rw [hs]
+  unfold itemsOf eolLen at e
+  simp only
+  rw [e]
+
+/-- the lines of an unsigned script contain no begin marker -/
+theorem unsigned_noMarker (T : Bytes) (style : Nat) (st en : Bytes) (dT : Digest) (hs : styleOf style = some (st, en))
+    (eT : DigestPS T style = .ok dT) (h0 : dT.sigSize = 0) : NoMarker (firstLine st en (isUtf16 T)) (itemsOf T) := by
+  have := DigestPS_loop T style st en dT hs eT
+  rw [h0] at this
+  exact digestLoop_unsigned _ _ _ _ (by unfold eolLen; split <;> omega) _ _ _ _ _ _ _ this
+
+/-! ### UTF-8 (not UTF-16 with BOM) -/
+
+theorem lines8_self (T : Bytes) : lines8 [] T = comp8 [] T ++ [.line (pend8 [] T) (pend8 [] T).length] := by
+  have := lines8_append [] T []
+  rw [List.append_nil] at this
+  rw [this]; rfl
+
+theorem items8_marker (style : Nat) (st en : Bytes) (hs : styleOf style = some (st, en)) (T rest : Bytes) :
+    lines8 [] (T ++ (firstLine st en false ++ rest)) =
+      comp8 [] T ++ (.line (pend8 [] T ++ firstLine st en false) ((pend8 [] T ++ (st ++ psBegin ++ en ++ [13])).length + 1) ::
+        lines8 [] rest) := by
+  have hfl : firstLine st en false = (st ++ psBegin ++ en ++ [13]) ++ [10] := by
+    simp [firstLine, crlf, List.append_assoc]
+  rw [lines8_append, hfl, List.append_assoc (st ++ psBegin ++ en ++ [13]) [10], List.singleton_append,
+    lines8_nolf _ _ _ (marker_nolf style st en hs)]
+  simp [List.append_assoc]
+
+/-- **UTF-8: what is cut off in front of the marker line.**  `T` is an unsigned script; it is followed by the begin-marker
+    line and anything.  If the whole is accepted, the text found either contains all of `T`, or is `T` without its last
+    two bytes and those are CR LF. -/
+theorem DigestPS_cut8 (T rest : Bytes) (style : Nat) (st en : Bytes) (dT d : Digest) (hs : styleOf style = some (st, en))
+    (hu : isUtf16 T = false) (eT : DigestPS T style = .ok dT) (h0 : dT.sigSize = 0)
+    (e : DigestPS (T ++ (firstLine st en false ++ rest)) style = .ok d) :
+    T.length ≤ d.textSize ∨ (d.textSize + 2 = T.length ∧ T.drop d.textSize = crlf) := by
+  have hu' := isUtf16_append_marker style st en hs T rest
+  rw [hu] at hu'
+  have L := DigestPS_loop _ style st en d hs e
+  rw [hu'] at L
+  simp only [itemsOf, eolLen, hu', Bool.false_eq_true, if_false] at L
+  have nmT := unsigned_noMarker T style st en dT hs eT h0
+  simp only [itemsOf, hu, Bool.false_eq_true, if_false] at nmT
+  rw [lines8_self] at nmT
+  have nm : NoMarker (firstLine st en false) (comp8 [] T) := fun l ph hm => nmT l ph (by simp [hm])
+  obtain ⟨hj, hg⟩ := comp8_join [] T
+  simp only [List.nil_append] at hj
+  have hlen := congrArg List.length hj
+  simp only [List.length_append] at hlen
+  rw [items8_marker style st en hs] at L
+  by_cases hp : pend8 [] T = []
+  · right
+    rw [hp, List.nil_append] at L
+    obtain ⟨a, b⟩ := digestLoop_at_marker _ _ _ _ (by omega) _ _ _ hg nm _ _ _ L
+    rw [hp, List.append_nil] at hj
+    rw [hj] at a b
+    have h2 : crlf.length = 2 := rfl
+    have := firstLine_sfx8 st en
+    rw [h2] at this
+    exact ⟨a, by rw [b, this]⟩
+  · left
+    have hne : pend8 [] T ++ firstLine st en false ≠ firstLine st en false := by
+      intro hc
+      have := congrArg List.length hc
+      simp only [List.length_append] at this
+      exact hp (List.eq_nil_of_length_eq_zero (by omega))
+    have := digestLoop_past _ _ _ _ _ _ _ _ hg nm hne _ _ _ L
+    have := firstLine_len8 st en
+    simp only [List.length_append] at *
+    omega
+
+/-- **UTF-8: refusal.**  `T0 ++ LF` is an unsigned script whose last line break is a bare LF (`T0` does not end with CR);
+    followed by the begin-marker line it is refused. -/
+theorem DigestPS_bare_lf8 (T0 rest : Bytes) (style : Nat) (st en : Bytes) (dT : Digest) (hs : styleOf style = some (st, en))
+    (hu : isUtf16 (T0 ++ [10]) = false) (eT : DigestPS (T0 ++ [10]) style = .ok dT) (h0 : dT.sigSize = 0)
+    (hcr : ¬ [13] <:+ T0) :
+    DigestPS (T0 ++ [10] ++ (firstLine st en false ++ rest)) style = .err "badsig" := by
+  have hu' := isUtf16_append_marker style st en hs (T0 ++ [10]) rest
+  rw [hu] at hu'
+  apply DigestPS_of_loop_err _ style st en _ hs
+  rw [hu']
+  simp only [itemsOf, eolLen, hu', Bool.false_eq_true, if_false]
+  have nmT := unsigned_noMarker _ style st en dT hs eT h0
+  simp only [itemsOf, hu, Bool.false_eq_true, if_false] at nmT
+  obtain ⟨hj, hg⟩ := comp8_join [] T0
+  simp only [List.nil_append] at hj
+  have hfl : firstLine st en false = (st ++ psBegin ++ en ++ [13]) ++ [10] := by
+    simp [firstLine, crlf, List.append_assoc]
+  have hT : lines8 [] (T0 ++ [10]) = comp8 [] T0 ++ [.line (pend8 [] T0 ++ [10]) ((pend8 [] T0).length + 1), .line [] 0] := by
+    rw [lines8_append]; simp [lines8]
+  rw [hT] at nmT
+  have hitems : lines8 [] (T0 ++ [10] ++ (firstLine st en false ++ rest)) =
+      comp8 [] T0 ++ (.line (pend8 [] T0 ++ [10]) ((pend8 [] T0).length + 1) ::
+        .line (firstLine st en false) (([] ++ (st ++ psBegin ++ en ++ [13])).length + 1) :: lines8 [] rest) := by
+    rw [List.append_assoc, lines8_append]
+    simp only [List.singleton_append, lines8, if_true]
+    rw [hfl, List.append_assoc (st ++ psBegin ++ en ++ [13]) [10], List.singleton_append,
+      lines8_nolf [] _ _ (marker_nolf style st en hs)]
+    simp [List.append_assoc]
+  rw [hitems]
+  refine digestLoop_refuses _ _ _ _ _ _ _ _ _ hg (fun l ph hm => nmT l ph (by simp [hm]))
+    (nmT (pend8 [] T0 ++ [10]) ((pend8 [] T0).length + 1) (by simp)) ?_
+  rintro ⟨hl, hd⟩
+  apply hcr
+  have h2 : crlf.length = 2 := rfl
+  have hsf := firstLine_sfx8 st en
+  rw [h2] at hsf
+  rw [hsf] at hd
+  simp only [List.length_append, List.length_cons, List.length_nil] at hl hd
+  have hp1 : 1 ≤ (pend8 [] T0).length := by omega
+  rw [show (pend8 [] T0).length + (0 + 1) - 2 = (pend8 [] T0).length - 1 by omega,
+    List.drop_append_of_le_length (by omega)] at hd
+  have hd' : List.drop ((pend8 [] T0).length - 1) (pend8 [] T0) = [13] := by
+    have : crlf = [13] ++ [10] := rfl
+    rw [this] at hd
+    exact List.append_cancel_right hd
+  have s1 : [13] <:+ pend8 [] T0 := by rw [← hd']; exact List.drop_suffix _ _
+  exact s1.trans ⟨_, hj⟩
+
+/-- **UTF-8: a block at the very start** (already refused since fix F8b) -/
+theorem DigestPS_marker_first8 (rest : Bytes) (style : Nat) (st en : Bytes) (hs : styleOf style = some (st, en)) :
+    DigestPS (firstLine st en false ++ rest) style = .err "badsig" := by
+  have hu' := isUtf16_append_marker style st en hs [] rest
+  have h0 : isUtf16 ([] : Bytes) = false := by simp [isUtf16]
+  rw [h0, List.nil_append] at hu'
+  apply DigestPS_of_loop_err _ style st en _ hs
+  rw [hu']
+  simp only [itemsOf, eolLen, hu', Bool.false_eq_true, if_false]
+  have := items8_marker style st en hs [] rest
+  rw [List.nil_append] at this
+  rw [this]
+  simp [comp8, pend8, digestLoop]
+
+/-! ### UTF-16LE (with BOM) -/
+
+theorem lines16_self (T : Bytes) (he : T.length % 2 = 0) :
+    lines16 [] T = comp16 [] T ++ [.line (pend16 [] T) (pend16 [] T).length] := by
+  have := lines16_append [] T [] he
+  rw [List.append_nil] at this
+  rw [this]; simp [lines16]
+
+theorem lines16_self_odd (T' : Bytes) (b : UInt8) (he : T'.length % 2 = 0) :
+    lines16 [] (T' ++ [b]) = comp16 [] T' ++ [.line (pend16 [] T' ++ [b]) ((pend16 [] T').length + 1)] := by
+  rw [lines16_append [] T' [b] he]; simp [lines16]
+
+theorem items16_marker (style : Nat) (st en : Bytes) (hs : styleOf style = some (st, en)) (T rest : Bytes)
+    (he : T.length % 2 = 0) :
+    lines16 [] (T ++ (firstLine st en true ++ rest)) =
+      comp16 [] T ++ (.line (pend16 [] T ++ firstLine st en true)
+        ((pend16 [] T ++ widen (st ++ psBegin ++ en ++ [13])).length + 2) :: lines16 [] rest) := by
+  have hfl : firstLine st en true = widen (st ++ psBegin ++ en ++ [13]) ++ [10, 0] := by
+    simp [firstLine, crlf, List.append_assoc, widen_append, widen]
+  rw [lines16_append _ _ _ he, hfl, List.append_assoc (widen (st ++ psBegin ++ en ++ [13])) [10, 0]]
+  have : [10, 0] ++ rest = 10 :: 0 :: rest := rfl
+  rw [this, lines16_nolf _ _ _ (marker_nolf style st en hs)]
+  simp [List.append_assoc]
+
+/-- a line that starts one byte before a widened text: every code unit is `(0, c)`, none is U+000A -/
+theorem lines16_zero_shift : ∀ (tl cur r : Bytes), ∃ x ph more,
+    lines16 cur (0 :: (widen tl ++ r)) = .line (cur ++ x) ph :: more ∧ 2 * tl.length + 1 ≤ x.length := by
+  intro tl
+  induction tl with
+  | nil =>
+    intro cur r
+    cases r with
+    | nil => exact ⟨[0], cur.length + 1, [], by simp [widen, lines16], by simp⟩
+    | cons y rs =>
+      obtain ⟨x', r', ph, e, _⟩ := lines16_head (cur ++ [0, y]) rs
+      refine ⟨0 :: y :: x', ph, r', ?_, by simp⟩
+      have : widen [] ++ y :: rs = y :: rs := rfl
+      rw [this]
+      simp only [lines16]
+      rw [if_neg (by intro hc; exact absurd hc.1 (by decide)), e]
+      simp
+  | cons c tl ih =>
+    intro cur r
+    obtain ⟨x', ph, more, e, hl⟩ := ih (cur ++ [0, c]) r
+    refine ⟨0 :: c :: x', ph, more, ?_, by simp only [List.length_cons]; omega⟩
+    have : widen (c :: tl) ++ r = c :: 0 :: (widen tl ++ r) := by simp [widen]
+    rw [this]
+    simp only [lines16]
+    rw [if_neg (by intro hc; exact absurd hc.1 (by decide)), e]
+    simp
+
+theorem lines16_odd_marker (c : UInt8) (hc : c ≠ 0) (tl cur r : Bytes) (b : UInt8) : ∃ x ph more,
+    lines16 cur (b :: (widen (c :: tl) ++ r)) = .line (cur ++ x) ph :: more ∧ 2 * (tl.length + 1) + 1 ≤ x.length := by
+  obtain ⟨x', ph, more, e, hl⟩ := lines16_zero_shift tl (cur ++ [b, c]) r
+  refine ⟨b :: c :: x', ph, more, ?_, by simp only [List.length_cons]; omega⟩
+  have : widen (c :: tl) ++ r = c :: 0 :: (widen tl ++ r) := by simp [widen]
+  rw [this]
+  simp only [lines16]
+  rw [if_neg (by intro h; exact hc h.2), e]
+  simp
+
+/-- **UTF-16LE: what is cut off in front of the marker line.**  As `DigestPS_cut8`; a script of odd length (a stray byte
+    at the end) keeps all its bytes: the marker behind it is not aligned and is not recognised. -/
+theorem DigestPS_cut16 (T rest : Bytes) (style : Nat) (st en : Bytes) (dT d : Digest) (hs : styleOf style = some (st, en))
+    (hu : isUtf16 T = true) (eT : DigestPS T style = .ok dT) (h0 : dT.sigSize = 0)
+    (e : DigestPS (T ++ (firstLine st en true ++ rest)) style = .ok d) :
+    T.length ≤ d.textSize ∨ (d.textSize + 4 = T.length ∧ T.drop d.textSize = widen crlf) := by
+  have hu' := isUtf16_append_marker style st en hs T rest
+  rw [hu] at hu'
+  have L := DigestPS_loop _ style st en d hs e
+  rw [hu'] at L
+  simp only [itemsOf, eolLen, hu', if_true] at L
+  have nmT := unsigned_noMarker T style st en dT hs eT h0
+  simp only [itemsOf, hu, if_true] at nmT
+  have hfl4 := firstLine_len16 st en
+  rcases Nat.mod_two_eq_zero_or_one T.length with he | ho
+  · -- aligned
+    rw [lines16_self T he] at nmT
+    have nm : NoMarker (firstLine st en true) (comp16 [] T) := fun l ph hm => nmT l ph (by simp [hm])
+    obtain ⟨hj, hg⟩ := comp16_join [] T
+    simp only [List.nil_append] at hj
+    have hlen := congrArg List.length hj
+    simp only [List.length_append] at hlen
+    rw [items16_marker style st en hs T rest he] at L
+    by_cases hp : pend16 [] T = []
+    · right
+      rw [hp, List.nil_append] at L
+      obtain ⟨a, b⟩ := digestLoop_at_marker _ _ _ _ (by omega) _ _ _ hg nm _ _ _ L
+      rw [hp, List.append_nil] at hj
+      rw [hj] at a b
+      have h4 : (widen crlf).length = 4 := rfl
+      have := firstLine_sfx16 st en
+      rw [h4] at this
+      exact ⟨a, by rw [b, this]⟩
+    · left
+      have hne : pend16 [] T ++ firstLine st en true ≠ firstLine st en true := by
+        intro hc
+        have := congrArg List.length hc
+        simp only [List.length_append] at this
+        exact hp (List.eq_nil_of_length_eq_zero (by omega))
+      have := digestLoop_past _ _ _ _ _ _ _ _ hg nm hne _ _ _ L
+      simp only [List.length_append] at *
+      omega
+  · -- a stray byte at the end
+    left
+    rcases List.eq_nil_or_concat T with hnil | ⟨T', b, hT⟩
+    · rw [hnil] at ho; simp at ho
+    · rw [List.concat_eq_append] at hT
+      subst hT
+      have he : T'.length % 2 = 0 := by simp only [List.length_append, List.length_cons, List.length_nil] at ho; omega
+      rw [lines16_self_odd T' b he] at nmT
+      have nm : NoMarker (firstLine st en true) (comp16 [] T') := fun l ph hm => nmT l ph (by simp [hm])
+      obtain ⟨hj, hg⟩ := comp16_join [] T'
+      simp only [List.nil_append] at hj
+      have hlen := congrArg List.length hj
+      simp only [List.length_append] at hlen
+      obtain ⟨c, tl, hst, _, _, c0⟩ := style_head style st en hs
+      have hfw : firstLine st en true = widen (c :: (tl ++ psBegin ++ en ++ crlf)) := by simp [firstLine, hst]
+      have hitems : lines16 [] (T' ++ [b] ++ (firstLine st en true ++ rest)) =
+          comp16 [] T' ++ lines16 (pend16 [] T') (b :: (firstLine st en true ++ rest)) := by
+        rw [List.append_assoc, lines16_append _ _ _ he]; rfl
+      rw [hitems] at L
+      rw [show b :: (firstLine st en true ++ rest) = b :: (widen (c :: (tl ++ psBegin ++ en ++ crlf)) ++ rest) by rw [hfw]] at L
+      obtain ⟨x, ph, more, ex, hx⟩ := lines16_odd_marker c c0 (tl ++ psBegin ++ en ++ crlf) (pend16 [] T') rest b
+      rw [ex] at L
+      have hfl : (firstLine st en true).length = 2 * ((tl ++ psBegin ++ en ++ crlf).length + 1) := by
+        rw [hfw, widen_length]; simp
+      have hne : pend16 [] T' ++ x ≠ firstLine st en true := by
+        intro hc
+        have := congrArg List.length hc
+        rw [hfl, List.length_append] at this
+        omega
+      have := digestLoop_past _ _ _ _ _ _ _ _ hg nm hne _ _ _ L
+      simp only [List.length_append, List.length_cons, List.length_nil] at *
+      omega
+
+/-- **UTF-16LE: refusal.**  `T0 ++ U+000A` (`T0` aligned, not ending with U+000D) is an unsigned script; followed by the
+    begin-marker line it is refused. -/
+theorem DigestPS_bare_lf16 (T0 rest : Bytes) (style : Nat) (st en : Bytes) (dT : Digest) (hs : styleOf style = some (st, en))
+    (hu : isUtf16 (T0 ++ [10, 0]) = true) (he : T0.length % 2 = 0) (eT : DigestPS (T0 ++ [10, 0]) style = .ok dT)
+    (h0 : dT.sigSize = 0) (hcr : ¬ [13, 0] <:+ T0) :
+    DigestPS (T0 ++ [10, 0] ++ (firstLine st en true ++ rest)) style = .err "badsig" := by
+  have hu' := isUtf16_append_marker style st en hs (T0 ++ [10, 0]) rest
+  rw [hu] at hu'
+  apply DigestPS_of_loop_err _ style st en _ hs
+  rw [hu']
+  simp only [itemsOf, eolLen, hu', if_true]
+  have nmT := unsigned_noMarker _ style st en dT hs eT h0
+  simp only [itemsOf, hu, if_true] at nmT
+  obtain ⟨hj, hg⟩ := comp16_join [] T0
+  simp only [List.nil_append] at hj
+  have hfl : firstLine st en true = widen (st ++ psBegin ++ en ++ [13]) ++ [10, 0] := by
+    simp [firstLine, crlf, List.append_assoc, widen_append, widen]
+  have hT : lines16 [] (T0 ++ [10, 0]) =
+      comp16 [] T0 ++ [.line (pend16 [] T0 ++ [10, 0]) ((pend16 [] T0).length + 2), .line [] 0] := by
+    rw [lines16_append _ _ _ he]; simp [lines16]
+  rw [hT] at nmT
+  have hitems : lines16 [] (T0 ++ [10, 0] ++ (firstLine st en true ++ rest)) =
+      comp16 [] T0 ++ (.line (pend16 [] T0 ++ [10, 0]) ((pend16 [] T0).length + 2) ::
+        .line (firstLine st en true) (([] ++ widen (st ++ psBegin ++ en ++ [13])).length + 2) :: lines16 [] rest) := by
+    rw [List.append_assoc, lines16_append _ _ _ he]
+    have e1 : [10, 0] ++ (firstLine st en true ++ rest) = 10 :: 0 :: (firstLine st en true ++ rest) := rfl
+    rw [e1]
+    simp only [lines16, and_self, if_true]
+    rw [hfl, List.append_assoc (widen (st ++ psBegin ++ en ++ [13])) [10, 0]]
+    have e2 : [10, 0] ++ rest = 10 :: 0 :: rest := rfl
+    rw [e2, lines16_nolf [] _ _ (marker_nolf style st en hs)]
+    simp [List.append_assoc]
+  rw [hitems]
+  refine digestLoop_refuses _ _ _ _ _ _ _ _ _ hg (fun l ph hm => nmT l ph (by simp [hm]))
+    (nmT (pend16 [] T0 ++ [10, 0]) ((pend16 [] T0).length + 2) (by simp)) ?_
+  rintro ⟨hl, hd⟩
+  apply hcr
+  have h4 : (widen crlf).length = 4 := rfl
+  have hsf := firstLine_sfx16 st en
+  rw [h4] at hsf
+  rw [hsf] at hd
+  simp only [List.length_append, List.length_cons, List.length_nil] at hl hd
+  have hp2 : 2 ≤ (pend16 [] T0).length := by omega
+  rw [show (pend16 [] T0).length + (0 + 1 + 1) - 4 = (pend16 [] T0).length - 2 by omega,
+    List.drop_append_of_le_length (by omega)] at hd
+  have hd' : List.drop ((pend16 [] T0).length - 2) (pend16 [] T0) = [13, 0] := by
+    have : widen crlf = [13, 0] ++ [10, 0] := rfl
+    rw [this] at hd
+    exact List.append_cancel_right hd
+  have s1 : [13, 0] <:+ pend16 [] T0 := by rw [← hd']; exact List.drop_suffix _ _
+  exact s1.trans ⟨_, hj⟩
 
 end Relic.PS
